@@ -1,5 +1,6 @@
 """C03: the score is the fzf scheme applied to the reported alignment."""
 import mcommon
+import vlib
 from mcommon import prepare, replay  # noqa
 
 TRUSTED = ["memchr/memmem modelled by their specification"]
@@ -29,6 +30,24 @@ def run(ctx, broken):
         lines += mcommon.exhaustive_lines(ctx, "FGSE", "c03")
     res = mcommon.generic_run(ctx, lines, view, clauses,
                               "same generator as C01 (including needles of 2500-4000 characters), all six algorithms; compared: (decision, score); oracle: fzf_score (Spec/Matching.v, literal constants) evaluated on the implementation's reported indices when prefer_prefix is off. Non-trivial = distinct case with non-empty strings.", tag="c03")
+    # the documented scoring scheme, read off the BUILT code (hm consts): the fzf constants and the three presets
+    # (C03_bonus_table / C03_presets state the same over the translated definitions; this is the failing input when
+    # a constant or a preset changes)
+    DOC_CONSTS = {"SCORE_MATCH": 16, "PENALTY_GAP_START": 3, "PENALTY_GAP_EXTENSION": 1, "BONUS_BOUNDARY": 8, "BONUS_CAMEL123": 5,
+                  "BONUS_CONSECUTIVE": 4, "BONUS_FIRST_CHAR_MULTIPLIER": 2, "BONUS_NON_WORD": 8, "PREFIX_BONUS_SCALE": 2, "MAX_PREFIX_BONUS": 8}
+    DOC_PRESETS = {"default": (10, 9), "match_paths": (8, 9), "set_match_paths": (8, 9)}
+    rcc, outc, errc, _ = vlib.run([ctx["hm"], "consts"], timeout=120)
+    if rcc != 0:
+        res["disagreements"].append({"what": "hm consts failed: " + errc[-200:]})
+    for l in outc.splitlines():
+        p = l.split()
+        if len(p) >= 3 and p[0] in ("const", "derived") and p[1] in DOC_CONSTS and int(p[2]) != DOC_CONSTS[p[1]]:
+            res["failures"].append({"class": "constant", "what": "the built code uses %s = %s, the documented fzf scheme has %d" % (p[1], p[2], DOC_CONSTS[p[1]]), "case": ""})
+        if len(p) >= 3 and p[0] == "preset" and p[1] in DOC_PRESETS:
+            kv = dict(x.split("=", 1) for x in p[2:] if "=" in x)
+            got = (int(kv.get("white", -1)), int(kv.get("delim", -1)))
+            if got != DOC_PRESETS[p[1]]:
+                res["failures"].append({"class": "preset", "what": "preset %s of the built code has (bonus_boundary_white, bonus_boundary_delimiter) = %s, documented %s (Config::DEFAULT 10/9; path matching - match_paths() and set_match_paths() alike - 8/9)" % (p[1], got, DOC_PRESETS[p[1]]), "case": ""})
     # the same alignment gets the same score from every algorithm
     recs, _ = mcommon.run_lines(ctx, lines, "c03")
     by = {}
